@@ -46,6 +46,8 @@ def shards(tier, seed):
 	for i in range(nclass):
 		out.append(dict(name=f'classes-{i}', kind='classes', n=ncases, sub=i))
 	out.append(dict(name='long', kind='long', n=6 if tier == 'quick' else 40))
+	out.append(dict(name='asan-classes', kind='classes', n=1200 if tier == 'quick' else 8000, sub=1000, sanitizer='asan'))
+	out.append(dict(name='asan-exh', kind='exh', part=0, nparts=40 if tier == 'quick' else 8, maxlen=6, alpha='ACGTN', prefixes=['A', 'AT', 'CG'], ks=[1, 2, 3], sanitizer='asan'))
 	return out
 
 
@@ -312,6 +314,9 @@ def finalize(merged, tier, seed, inconclusive):
 	for n in need:
 		if c.get(n, 0) == 0:
 			inconclusive.append(f'class never observed: {n}')
+	merged['notes'].setdefault('sanitizer_stage', {})
+	if not merged['notes'].get('overlay_loaded', {}).get('asan') and not merged['notes']['sanitizer_stage']:
+		inconclusive.append('ASan/UBSan overlay was never loaded')
 	ks = merged['sets'].get('k_values', set())
 	if tier == 'thorough' and len(ks) < 32:
 		inconclusive.append(f'only {len(ks)} of 32 k values exercised')
